@@ -1,13 +1,17 @@
 reg("C12", "experimental variograms vs their pairwise definition",
     parts=[dict(harness="c12_vario", cases=dict(quick=4000, thorough=40000), timeout_case=20)],
-    rule="case = (data set, VarioParam, calculation mode) drawn from the case PRNG. general (62%): scattered Db, 1-3 D, "
+    rule="case = (data set, VarioParam, calculation mode) drawn from the case PRNG. general (54%): scattered Db, 1-3 D, "
          "1-3 variables, n <= 60 (thorough 200), layouts lattice / uniform / few-distinct-abscissae / clustered / transect, "
          "sample order random or sorted by decreasing / increasing x, integer offsets up to 1e6, undefined values "
          "(cells, whole samples, one variable half missing), weights (some zero), selections (70%, 3 samples, empty), "
          "codes; 1-3 directions with npas 1-30, random or lattice-unit dpas, toldis 0.05-0.5, angular tolerance 1-90 deg, "
          "2-D angles / 3-D direction vectors (not normalised), bench, cylinder radius, irregular breaks, code criterion. "
-         "grid (28%): DbGrid 1-3 D (rotated, offset), DirParam::createFromGrid, grid algorithm vs reference and vs the "
-         "general algorithm on the same data. genvar (10%): GENERAL1-3 on grids. Reference = O(n^2) pair enumeration in "
+         "grid (25%): DbGrid 1-3 D (rotated, offset), DirParam::createFromGrid, grid algorithm vs reference and vs the "
+         "general algorithm on the same data. genvar (7%): GENERAL1-3 on grids. vmap (8%): db_vmap on scattered 2-3 D data "
+         "and on grids (direct and FFT algorithms): every cell except the centre = the pairs whose separation vector "
+         "(or its opposite) is nearest to the cell, sum of weights and mean term; FFT vs direct. vcloud (6%): db_vcloud "
+         "cell counts = pairs kept by the direction whose (distance, half or full squared difference) is nearest to the "
+         "cell. Small strata: date criterion (symmetric interval), mixed per-direction code options. Reference = O(n^2) pair enumeration in "
          "long double (harness/common/ref_vario.hpp): per lag sum of pair weights w_i*w_j, mean distance, mean of the "
          "two-point term; lag = round(d/dpas) kept iff |d - k dpas| <= toldis*dpas; direction kept iff |cos| >= "
          "cos(tolang); a pair within 1e-9 (relative) of a class / cone / bench / cylinder boundary taints its lag(s), "
@@ -20,12 +24,13 @@ reg("C12", "experimental variograms vs their pairwise definition",
          "sample permutation, exact coordinate translation, reversal of the variable order (C_ab(h) = C_ba(-h)), "
          "each direction alone = that direction of the joint run. distinct = distinct (kind, mode, ndim, nvar, layout, "
          "order, weights, selection, heterotopy, codes, direction features) signatures with >= 1 evaluated oracle",
-    require=dict(distinct=300,
+    require=dict(distinct=1000,
                  oracles=dict(quick={"sw": 40000, "hh": 15000, "gg": 12000, "empty": 40000, "perm": 80000,
                                      "translate": 80000, "var-swap": 60000, "dir-split": 60000,
-                                     "grid-vs-general": 20000},
-                              thorough={"sw": 600000, "hh": 200000, "gg": 150000, "perm": 1000000,
-                                        "grid-vs-general": 250000})),
+                                     "grid-vs-general": 20000, "vmap-nb": 8000, "vmap-var": 5000,
+                                     "vmap-fft": 3000, "vcloud-count": 5000},
+                              thorough={"sw": 500000, "hh": 150000, "gg": 120000, "perm": 1000000,
+                                        "grid-vs-general": 200000})),
     assumptions=["the weight of a pair is the product of the two sample weights (AVario.cpp); the lag, cone, bench, "
                  "cylinder and code rules are the ones written in the DirParam class comment",
                  "an empty lag reports TEST for distance and statistic (calibrated reading of the design round)"])
